@@ -251,6 +251,55 @@ pub fn run(ctx: &Ctx) -> (Stats, Report) {
     st.exhaustive_sections.push(format!("triple grid {} years x {} months x {} days", ys.len(), ms.len(), ds.len()));
     st.section("triple_grid", &mut mark);
 
+    // D: bit-pattern months and days (2^b + small), which a shift, mask or narrowing cast would
+    // fold onto a valid field, on a reduced set of years
+    let ys2: Vec<i32> = vec![-1, 0, 1, 4, 100, 1582, 1900, 1970, 2000, 2023, 2024, 9999, 10000, i32::MIN, i32::MAX, 65536 + 2000, (1 << 27) + 2000];
+    let mut ms2: Vec<u32> = vec![];
+    let mut ds2: Vec<u32> = vec![];
+    for b in 3..32u32 {
+        for m in 0..=13u32 {
+            ms2.push((1u32 << b).wrapping_add(m));
+            ms2.push((1u32 << b).wrapping_sub(m));
+            ms2.push(m.wrapping_mul(1 << b));
+        }
+        for d in 0..=32u32 {
+            ds2.push((1u32 << b).wrapping_add(d));
+            ds2.push((1u32 << b).wrapping_sub(d));
+        }
+    }
+    ms2.sort();
+    ms2.dedup();
+    ds2.sort();
+    ds2.dedup();
+    let small_m: Vec<u32> = (0..=14).collect();
+    let small_d: Vec<u32> = (0..=33).collect();
+    let combos: Vec<(&Vec<u32>, &Vec<u32>)> = vec![(&ms2, &small_d), (&small_m, &ds2)];
+    for (mm, dd) in combos {
+        let g = par_sweep(ys2.len() as u64, 1, |range, st| {
+            for yi in range {
+                let y = ys2[yi as usize];
+                for &m in mm.iter() {
+                    for &d in dd.iter() {
+                        st.evaluations += 1;
+                        match check_triple(y, m, d) {
+                            Ok(true) => st.class("triple-accepted"),
+                            Ok(false) => {
+                                st.class("bit-pattern-triple-rejected");
+                                st.nontrivial_enum += 1;
+                            }
+                            Err(msg) => {
+                                st.fail(yi, Case::new(P, "triple", vec![y as i128, m as i128, d as i128], vec![]), msg);
+                                return;
+                            }
+                        }
+                    }
+                }
+            }
+        });
+        st.merge(g);
+    }
+    st.section("bit_pattern_triples", &mut mark);
+
     let rep = Report {
         rule: "Exhaustive enumeration (both tiers): every in-range day number (Date::try_from_days/extract/accessors/try_from_ymd/is_valid/day_of_week/ordering vs. an independently *walked* calendar), out-of-range day numbers, and the (year, month, day) grid years -1..=10001+extremes x months 0..=14+extremes x days 0..=33+extremes. Non-trivial = month end, 28/29 Feb, century year, before 1583, within 7 days of a range end, an out-of-range number, or a rejected triple; all distinct by enumeration.".into(),
         assumptions: vec![
